@@ -29,31 +29,37 @@ EXTENDS Integers, Sequences, FiniteSets, TLC
 
 CONSTANTS Mods, Children, NP, CacheOf, Kind, TopLists, MaxCalls, MayFail
 
-VARIABLES done, pending, applied, marked, call, stack, ncalls, outcome, failedAt
-svars == <<done, pending, applied, marked, call, stack, ncalls, outcome, failedAt>>
+VARIABLES done, pending, failed, applied, marked, dirty, call, stack, ncalls, outcome, failedAt
+svars == <<done, pending, failed, applied, marked, dirty, call, stack, ncalls, outcome, failedAt>>
 
 Caches == {CacheOf[i] : i \in 1..NP}
 Idle == [active |-> FALSE, tops |-> <<>>, t |-> 0, i |-> 0]
 
-SInit == /\ done = [c \in Caches |-> {}] /\ pending = [c \in Caches |-> {}]
+SInit == /\ done = [c \in Caches |-> {}] /\ pending = [c \in Caches |-> {}] /\ failed = [c \in Caches |-> {}] /\ dirty = {}
          /\ applied = [m \in Mods |-> <<>>] /\ marked = {}
          /\ call = Idle /\ stack = <<>> /\ ncalls = 0 /\ outcome = "none" /\ failedAt = <<>>
 
 Call(tops) == /\ ~call.active /\ ncalls < MaxCalls
               /\ call' = [active |-> TRUE, tops |-> tops, t |-> 1, i |-> 1]
               /\ ncalls' = ncalls + 1 /\ outcome' = "running"
-              /\ UNCHANGED <<done, pending, applied, marked, stack, failedAt>>
+              /\ UNCHANGED <<done, pending, failed, dirty, applied, marked, stack, failedAt>>
 
 C == CacheOf[call.i]
 Abort(why) == /\ call' = Idle /\ stack' = <<>> /\ outcome' = why
 
 (* dispatch module m (a top, or the next child of the top frame); adv = bookkeeping that records the dispatch *)
+(* an exception unwinds every open frame: each frame's module leaves `pending` and is remembered as failed *)
+Frames == {stack[k].m : k \in 1..Len(stack)}
+Unwind == /\ pending' = [pending EXCEPT ![C] = @ \ Frames]
+          /\ failed' = [failed EXCEPT ![C] = @ \cup Frames]
 Begin(m, adv(_)) ==
-  IF m \in done[C] THEN adv(FALSE) /\ UNCHANGED <<done, pending, applied, marked, ncalls, outcome, failedAt>>      \* SkipDone
+  IF m \in failed[C] THEN                                                                                        \* ReFail: the original failure again
+       /\ Abort("raised_original") /\ Unwind /\ UNCHANGED <<done, dirty, applied, marked, ncalls, failedAt>>
+  ELSE IF m \in done[C] THEN adv(FALSE) /\ UNCHANGED <<done, pending, failed, dirty, applied, marked, ncalls, outcome, failedAt>>   \* SkipDone
   ELSE IF m \in pending[C] THEN                                                                                  \* Circular
-       /\ Abort("raised_circular") /\ UNCHANGED <<done, pending, applied, marked, ncalls, failedAt>>
+       /\ Abort("raised_circular") /\ Unwind /\ UNCHANGED <<done, dirty, applied, marked, ncalls, failedAt>>
   ELSE /\ pending' = [pending EXCEPT ![C] = @ \cup {m}]                                                          \* Enter
-       /\ adv(TRUE) /\ UNCHANGED <<done, applied, marked, ncalls, outcome, failedAt>>
+       /\ adv(TRUE) /\ UNCHANGED <<done, failed, dirty, applied, marked, ncalls, outcome, failedAt>>
 
 VisitChild ==
   /\ call.active /\ stack # <<>> /\ stack[Len(stack)].todo # <<>>
@@ -74,18 +80,20 @@ ApplyExit ==
      /\ pending' = [pending EXCEPT ![C] = @ \ {m}]
      /\ done' = [done EXCEPT ![C] = @ \cup {m}]
      /\ stack' = SubSeq(stack, 1, Len(stack) - 1)
-     /\ UNCHANGED <<call, ncalls, outcome, failedAt>>
-(* the pass raises while working on the top frame's module: the exception unwinds; pending entries stay *)
+     /\ UNCHANGED <<call, failed, dirty, ncalls, outcome, failedAt>>
+(* the pass raises while working on the top frame's module (a design error, or an exception in user code); a rewriting pass
+   may have modified the module part-way (dirty) *)
 FailAt ==
   /\ MayFail /\ call.active /\ stack # <<>> /\ stack[Len(stack)].todo = <<>>
   /\ failedAt' = <<call.i, stack[Len(stack)].m>>
-  /\ Abort("raised_fault")
-  /\ UNCHANGED <<done, pending, applied, marked, ncalls>>
+  /\ dirty' = IF Kind[call.i] = "rewrite" THEN dirty \cup {stack[Len(stack)].m} ELSE dirty
+  /\ Abort("raised_fault") /\ Unwind
+  /\ UNCHANGED <<done, applied, marked, ncalls>>
 NextPass ==
   /\ call.active /\ stack = <<>> /\ call.t > Len(call.tops)
   /\ IF call.i < NP THEN call' = [call EXCEPT !.i = @ + 1, !.t = 1] /\ outcome' = outcome
      ELSE call' = Idle /\ outcome' = "returned"
-  /\ UNCHANGED <<done, pending, applied, marked, stack, ncalls, failedAt>>
+  /\ UNCHANGED <<done, pending, failed, dirty, applied, marked, stack, ncalls, failedAt>>
 
 SNext == (\E tops \in TopLists : Call(tops)) \/ VisitChild \/ VisitTop \/ ApplyExit \/ FailAt \/ NextPass
 
@@ -102,4 +110,8 @@ MarkedAreComplete == \A m \in marked : Len(applied[m]) = NP
 ChildrenFirst == \A m \in Mods : \A k \in 1..Len(Children[m]) : Len(applied[Children[m][k]]) >= Len(applied[m])
 (* C08: a finished call - returned or raised - leaves no pending entry behind *)
 NoStalePending == ~call.active => \A c \in Caches : pending[c] = {}
+(* C08: a module a rewriting pass failed on is never marked elaborated (hence never exported) *)
+HalfRewrittenNeverMarked == marked \cap dirty = {}
+(* C08: failures never spread to modules that were not on the failing path *)
+FailedOnlyOnFailingPath == \A c \in Caches : \A m \in failed[c] : failedAt # <<>>
 =============================================================================
